@@ -1,6 +1,7 @@
 import RreModel.Proto
 import RreModel.C05.Spec
 import RreModel.C05.Model2
+import RreModel.C05.Model3
 /-
 Driver for C05.
   case := `<E> <hex utf-8 input> <cls>`      cls := `-` | `cp:f,cp:f,…`  (hex code point : 1·white+2·alpha+4·numeric)
@@ -250,9 +251,64 @@ def vFacts (s : Str) : Option AV :=
   | "Order.none" => some (.numv (some true))
   | _ => none
 
+/-! ### third group (Model3): WT, NV, FA, MA, IM -/
+
+/-- chars that make the surrounding regexes / the text layer do something the wrapper's shape does not predict -/
+def plainPayload (s : Str) (extra : List Char) : Bool :=
+  !(s.any fun c => c == '"' || c == '\'' || c == '{' || c == '}' || c == ';' || c == '\n' || c == '\r'
+      || c == MASK_START || c == MASK_END || extra.contains c)
+    && !containsStr s "//".toList && !containsStr s "/*".toList
+
+/-- WT: `rule "r" { when <s> then Y = 1; }` ↦ the tree of `parse_when_clause` if every leaf parses (`iferr`: an `Err` of
+the regex-driven leaf parser agrees as well) -/
+def predictWT (k : Cls) (s : Str) : String :=
+  if !plainPayload s ['$', ':', ',', '[', ']'] || (trim k s).isEmpty
+      || ["then", "accumulate", "stream", "test", "rule", "when"].any (fun w => containsStr s w.toList) then "-"
+  else match whenShape k s with
+    | .ok t => "iferr ok " ++ t
+    | .err => "err"
+    | .panic => "panic"
+    | .oof => "oof"
+
+def showVals (vs : List Val) : String :=
+  s!"{vs.length} {if vs.isEmpty then "-" else ";".intercalate (vs.map showVal)}"
+
+/-- FA / MA: `… then foo(<s>); }` / `… then $Obj.set(<s>); }` ↦ the positional arguments -/
+def predictArgs (k : Cls) (method : Bool) (s : Str) : String :=
+  if !plainPayload s ['$', '=', '(', ')'] then "-"
+  -- `$Obj.set(<s>)`: METHOD_CALL_REGEX never matches under the regex engine in use (observed on every case), the statement is
+  -- parsed by the function-call branch: a custom action `set` with the arguments of `parse_function_args_as_params`.
+  -- `methodArgs` (`parse_method_args`) is therefore not reachable through the public API; a build in which the regex
+  -- matches shows up here as `ok method …`
+  else showR (fun vs => (if method then "custom " else "") ++ showVals vs) (funcArgs k s)
+
+/-- IM: `defmodule A { export: all }⏎defmodule B { import: <s> }` ↦ the imports of `B` -/
+def predictIM (k : Cls) (s : Str) : String :=
+  if !plainPayload s [] || ["import:", "export:", "defmodule"].any (fun w => containsStr s w.toList) then "-"
+  else match extractDirective k (" import: ".toList ++ s ++ " ".toList) "import:".toList with
+    | .ok (some spec) =>
+      (match importSpec k spec with
+       | .ok (src, r, t) =>
+         if !(r || t) then "ok -"
+         else if src == ['A'] || src == "MAIN".toList then
+           "ok " ++ ",".intercalate ((if r then [hx src ++ ":r"] else []) ++ (if t then [hx src ++ ":t"] else []))
+         else "err"
+       | .err => "err"
+       | .panic => "panic"
+       | .oof => "oof")
+    | .ok none => "-"
+    | .err => "err"
+    | .panic => "panic"
+    | .oof => "oof"
+
 /-- the model's prediction for one entry -/
 def predict (k : Cls) (e : String) (s : Str) : String :=
   match e with
+  | "WT" => predictWT k s
+  | "NV" => showR hxList (queryVars k s)
+  | "FA" => predictArgs k false s
+  | "MA" => predictArgs k true s
+  | "IM" => predictIM k s
   | "S" => showPR showSPat (parseStreamPattern nomRef k s)
   | "SJ" => showPR (fun (p : SPat × SPat) => showSPat p.1 ++ " " ++ showSPat p.2) (parseStreamJoin nomRef k s)
   | "SC" => showPR showJoinCond (parseJoinCondition nomRef k s)
